@@ -3,7 +3,7 @@ from pyvc.verify import Post, Case, Equiv
 from contracts import common
 
 PROPERTY = 'C12'
-REF_MODULES = ['ref_mut', 'h_path', 'ref_extra', 'ref_core']
+REF_MODULES = ['ref_mut', 'h_path', 'ref_extra', 'ref_core', 'ref_t']
 TS = ['len(S.__ops__) == 1', 'S.__ops__[0] is S', 'len(T.__ops__) == 1', 'T.__ops__[0] is T']
 
 
@@ -33,6 +33,10 @@ def contracts():
     cs.append(Equiv('mutation._del_sequence_item', 'ref_mut.del_seq_ref', args={'target': 'ref', 'idx': 'ref'}))
     from contracts import extra
     cs += common.shared(extra, ['mutation.Delete.__init__', 'mutation.delete', 'mutation._delete_autodiscover'])
+    # the destination: the text is split into segments by Path.from_text and walked by _t_eval (wildcard expansion included)
+    from contracts import C02
+    cs += common.shared(C02, ['core._t_eval'])
+    cs += common.shared(extra, ['core.Path.from_text', 'core.TType.__stars__'])
     return cs
 
 
@@ -69,6 +73,8 @@ NATIVE = {
     'mutation._apply_for_each': _n.differ('mutation._apply_for_each', 'ref_mut.apply_for_each_ref', _apply_cases, mode='apply'),
     'mutation.Delete': _n.differ('mutation.Delete.glomit', 'ref_mut.delete_ref', _del_cases, mode='method'),
 }
+from contracts import extra as _extra
+BOUNDED = [_extra.bounded_from_text]
 ASSUMPTIONS = [
     'G-contract for fetching the parent; opaque user primitives del obj[k] / delattr / registered delete handler (each may raise anything)',
     'Delete.glomit is proved for wildcard-free paths; the wildcard broadcast is the separate contract on _apply_for_each',
